@@ -140,8 +140,12 @@ func cmdVerify(args []string) {
 			con = c
 		} else {
 			// allow short keys
+			loadedPk := map[string]bool{}
+			for _, p := range e.pkgs {
+				loadedPk[p.PkgPath] = true
+			}
 			for k, c := range e.contracts {
-				if strings.HasSuffix(k, "."+key) || strings.HasSuffix(k, key) {
+				if loadedPk[c.Pkg] && (strings.HasSuffix(k, "."+key) || strings.HasSuffix(k, key)) {
 					con = c
 				}
 			}
